@@ -404,4 +404,34 @@ def N19():  # --max-blob-size stripped nothing in a SHA-256 repository (64-digit
         shutil.rmtree(root, ignore_errors=True)
 
 
+def N20():  # commits reachable only from a detached HEAD: exported, mapped in commit-map, then pruned when HEAD is re-attached
+    root, repo = new_repo()
+    try:
+        commit(repo, {'a': 'a'}, 'one'); commit(repo, {'a': 'ab'}, 'two')
+        sh(repo, 'git checkout -q --detach'); commit(repo, {'a': 'abc'}, 'only on the detached HEAD')
+        rc, _, _ = tool(repo, '--force')
+        if rc != 0:
+            return True
+        for line in open(os.path.join(repo, '.git/filter-repo/commit-map')).read().split('\n'):
+            parts = line.split()
+            if len(parts) == 2 and parts[0] != 'old' and set(parts[1]) != {'0'}:
+                if subprocess.run(['git', '-C', repo, 'cat-file', '-e', parts[1] + '^{commit}'], env=e2e.GIT_ENV, stderr=subprocess.DEVNULL).returncode != 0:
+                    return True          # commit-map names a commit that does not exist
+        return False
+    finally:
+        shutil.rmtree(root, ignore_errors=True)
+
+
+def N21():  # --tag-rename v:v wrote `refs/tags/v1 refs/tags/v1` into ref-map
+    root, repo = new_repo()
+    try:
+        commit(repo, {'a': 'a'}, 'one'); sh(repo, 'git tag v1; git tag -a -m ann v2')
+        rc, _, _ = tool(repo, '--force', '--tag-rename', 'v:v')
+        p = os.path.join(repo, '.git/filter-repo/ref-map')
+        lines = [l.split() for l in open(p).read().splitlines()] if os.path.exists(p) else []
+        return rc != 0 or any(len(l) == 2 and l[0] == l[1] for l in lines)
+    finally:
+        shutil.rmtree(root, ignore_errors=True)
+
+
 RECIPES = {k: v for k, v in list(globals().items()) if callable(v) and k[0] in 'FNR' and k[1:].isdigit()}
